@@ -93,6 +93,8 @@ def extra_sessions(rnd, tier):
 
 
 def run_sessions(sessions, workdir, flavours=("slack", "noslack"), base=0):
+    # every third session once more with the size of the destination object known to the library (flag 64): nothing may change
+    sessions = list(sessions) + [[(c[0], c[1], c[2], c[3], c[4], c[5] | 64, c[6]) for c in ses] for i, ses in enumerate(sessions) if i % 3 == 0]
     b = build.ensure(list(flavours), [("hmbs", f) for f in flavours])
     lines, meta = [], {}
     cid = base
